@@ -61,8 +61,15 @@ type Contract struct {
 	Lock      string          // informational
 	AssumePre []string        // labels of callee preconditions that are environment assumptions in this function (e.g. conformant traffic)
 	Reveal    map[string]bool // opaque specification functions whose definition this function's proof may use
+	GhostIncs []GhostInc      // ghostinc "name" expr: on entry the named ghost counter of the object is incremented
 	Lemmas    []Lemma         // intermediate assertions proved just before the listed calls and assumed afterwards
 	SortLen   int             // sortlen 3: sort.Sort calls in this function sort exactly three elements (checked)
+}
+
+// GhostInc: a ghost assignment executed on entry of the function (counts calls per object; specification only).
+type GhostInc struct {
+	Name string
+	Ref  ast.Expr
 }
 
 // Lemma: `lemma [label] before F, G: P` - P (over parameters, lets and old state) is proved in the state just before
@@ -126,7 +133,7 @@ type ContractTable struct {
 	FuncType map[string]*Contract // named function type -> assumed contract of every value of that type
 }
 
-var kwRe = regexp.MustCompile(`^(func|trusted func|iface|pure func|hfunc|ufunc|axiom|requires|ensures|assumes|modifies|loop|invariant|safety|let|letold|noinline|params|lock|sortlen|static|functype|assumepre|lemma|reveal)\b`)
+var kwRe = regexp.MustCompile(`^(func|trusted func|iface|pure func|hfunc|ufunc|axiom|requires|ensures|assumes|modifies|loop|invariant|safety|let|letold|noinline|params|lock|sortlen|static|functype|assumepre|lemma|reveal|ghostinc)\b`)
 var tagRe = regexp.MustCompile(`^\[([A-Za-z0-9_,.\- ]+)\]\s*`)
 
 type rawLine struct {
@@ -285,6 +292,19 @@ func (p *Program) parseContractFile(pkg *packages.Package, file string) error {
 			if cur != nil {
 				cur.SortLen, _ = strconv.Atoi(rest)
 			}
+		case "ghostinc":
+			if cur == nil {
+				return fail("ghostinc outside contract")
+			}
+			f := strings.SplitN(rest, " ", 2)
+			if len(f) != 2 {
+				return fail("ghostinc \"name\" expr")
+			}
+			e, err := parser.ParseExpr(strings.TrimSpace(f[1]))
+			if err != nil {
+				return fail("ghostinc: %v", err)
+			}
+			cur.GhostIncs = append(cur.GhostIncs, GhostInc{Name: strings.Trim(f[0], "\""), Ref: e})
 		case "reveal":
 			if cur == nil {
 				return fail("reveal outside contract")
